@@ -335,6 +335,11 @@ func (w *SrvWorld) expectationHoldsWhy(rc *RealClient, rt *realTConn) (bool, str
 				if !o.Done || o.Err != nil {
 					return false, "an earlier Accept failed"
 				}
+				if o.T1 > tc {
+					// (it was still waiting when this connection was made - its own was refused or
+					// never came - and an Accept takes whichever connection is announced next)
+					return false, "an earlier Accept was still waiting when this connection was made"
+				}
 				okBefore++
 			}
 		}
